@@ -17,6 +17,6 @@ func c01Params() GenParams {
 func TestVerif_C01_restart(t *testing.T) {
 	runHistoryProperty(t, "C01", "restart",
 		"rapid-generated histories of 5-60 engine ops (KV, index create/drop/re-create over all metric x precision x language x memory/maintenance/auto-link configs, add with/without metadata, batch, import+snapshot, delete, re-add, metadata merge, reinforce, evolve, link/unlink soft+hard with/without props, config updates) with SaveSnapshot / RewriteAOF / Compress / vacuum / refine / Restart at any position and at least one restart; at every restart: read-out before Close == read-out after Open == reference model, twice in a row, then the history continues; non-trivial = a restart preceded by a state-changing op after the last admin op on a non-empty state",
-		c01Params(), HistoryMode{RoundTrip: true, FinalRestart: true}, 300, 20000,
+		c01Params(), HistoryMode{RoundTrip: true, FinalRestart: true}, 1000, 30000,
 		func(l map[string]bool) bool { return l["restart-after-write"] })
 }
